@@ -901,3 +901,26 @@ def check_dyn_reactions(case, rec):
 
 SUBS.append(Sub("reactions_transient", check_dyn_reactions, gen=dyn_reaction_cases, quick=120, thorough=1200, shards=4,
                 doc="Calc_Reaction of an arbitrary transient state vs K u + C v + M a for every time scheme"))
+
+
+# ------------------------------------------------------------------------------------------
+# (added by the lead) the energy identity at several magnitudes of the state (displacements of 1e-10 or 1e+5 length units), one
+# case per simulation type: a quantity that is quadratic in u must not go through an absolute "is it zero" test
+
+
+def enum_energy_units(tier):
+    sq = [[1.0, 0.0], [0.1, 1.1], [-1.0, 0.2], [-0.1, -0.9]]
+    r2 = dict(verts=sq, h=0.7, elemType="TRI3", organised=False, extrude=None, layers=0, A=None, b=None, perm=None, orphans=0)
+    r3 = dict(verts=sq, h=1.2, elemType="TETRA4", organised=False, extrude=[0.1, 0.0, 0.8], layers=1, A=None, b=None, perm=None, orphans=0)
+    el2 = dict(cls="iso", dim=2, planeStress=True, thickness=0.5, E=3.0, v=0.3, angles=[0.1])
+    el3 = dict(cls="iso", dim=3, planeStress=False, thickness=1.0, E=3.0, v=0.3, angles=[0.1, 0.1, 0.1])
+    pf = dict(E=5.0, v=0.2, planeStress=False, thickness=0.5, split="Miehe", regu="AT2", Gc=1.0, l0=0.3)
+    k = 0
+    for umag in (1e-9, 1e6):
+        for sim, recipe, model in (("elastic", r2, el2), ("elastic", r3, el3), ("phasefield", r2, pf), ("phasefield", r3, dict(pf, split="Amor")),
+                                   ("thermal", r2, dict(k=1.5, c=2.0, thickness=0.5)), ("weakforms", r2, dict(dof_n=2, thickness=0.5))):
+            k += 1
+            yield dict(sim=sim, seed=k, only=None, algo="elliptic", model=model, recipe=recipe, umag=umag)
+
+
+SUBS.append(Sub("energy_units", check_energy, enum=enum_energy_units))
